@@ -217,7 +217,7 @@ impl AssemblyCode {
                             cycles: inst.cycles,
                             cycles_alt: inst.cycles_alt,
                             nb_bytes: inst.nb_bytes,
-                            protected: false,
+                            protected: inst.protected,
                         }));
                     }
                     _ => self.code.push(i.clone()),
